@@ -62,6 +62,26 @@ func (h *macKeyHistory) addKeys(ourKeyID uint32, theirKeyID uint32, receivingMAC
 	h.items = append(h.items, macKeys)
 }
 
+func (h *macKeyHistory) has(ourKeyID uint32, theirKeyID uint32) bool {
+	for _, k := range h.items {
+		if k.ourKeyID == ourKeyID && k.theirKeyID == theirKeyID {
+			return true
+		}
+	}
+	return false
+}
+
+// forgetKeys drops the record of one key pair without disclosing anything,
+// keeping the order of the others
+func (h *macKeyHistory) forgetKeys(ourKeyID uint32, theirKeyID uint32) {
+	for i, k := range h.items {
+		if k.ourKeyID == ourKeyID && k.theirKeyID == theirKeyID {
+			h.items = append(h.items[:i], h.items[i+1:]...)
+			return
+		}
+	}
+}
+
 func (h *macKeyHistory) forgetMACKeysForOurKey(ourKeyID uint32) []macKey {
 	var ret []macKey
 	var del []int
